@@ -296,7 +296,9 @@ pub fn run_case(env: &Env, case: &Case, oracle: &mut Oracle, mut fill: Option<Pl
         return result;
     }
     stats.cases += 1;
-    if let Err(e) = world::pin_all(&root) {
+    // one case in eight: a third of the files carry a modification time in the future
+    let future = if case.seed % 8 == 5 { Some(case.seed) } else { None };
+    if let Err(e) = world::pin_all_future(&root, future) {
         result.harness_error = Some(format!("pin: {e}"));
         return result;
     }
@@ -353,10 +355,37 @@ pub fn run_case(env: &Env, case: &Case, oracle: &mut Oracle, mut fill: Option<Pl
                     }
                 };
                 let fired = run::fired(&out.trace);
-                if out.signal.is_some() && !fired.signalled {
-                    // SIGXCPU (runaway), the watchdog, or a real crash of the binary: not a verdict of C14-C16
-                    result.harness_error = Some(format!("child killed by signal {:?} (argv {:?})", out.signal, crate::util::excerpt(inv.argv("{ROOT}").join(" ").as_bytes(), 300)));
-                    break;
+                let mut out = out;
+                if let (Some(sig), false) = (out.signal, fired.signalled) {
+                    if matches!(sig, 4 | 6 | 7 | 8 | 11) {
+                        // The binary crashed by itself (abort, stack overflow, segfault). If a very
+                        // deeply nested input is involved and the binary cannot format it even alone
+                        // on stdin, the document is simply too much for it (C05's business): no
+                        // verdict. Otherwise the crash is judged like any other outcome - a batch that
+                        // dies has not processed its remaining inputs.
+                        let mut too_much = false;
+                        let mut texts: Vec<Vec<u8>> = tree.values().filter_map(|n| if let Node::File(b) = n { Some(b.0.clone()) } else { None }).collect();
+                        if let Some(b) = &inv.stdin {
+                            texts.push(b.0.clone());
+                        }
+                        for t in texts.iter().filter(|t| t.windows(16).any(|w| w == b"((((((((((((((((")) {
+                            let alone = Inv { shape: Shape::Stdin { check: false }, stdin: Some(crate::util::Bytes(t.clone())), plan: vec![], env: vec![], ..inv.clone() };
+                            match run::run_inv(env, &alone) {
+                                Ok(o) if o.signal.is_none() => {}
+                                _ => too_much = true,
+                            }
+                        }
+                        if too_much {
+                            stats.oracle_unavailable += 1;
+                            break;
+                        }
+                        out.exit = Some(128 + sig);
+                        out.signal = None;
+                    } else {
+                        // SIGKILL (watchdog), SIGXCPU (runaway): not a verdict of C14-C16
+                        result.harness_error = Some(format!("child killed by signal {:?} (argv {:?})", out.signal, crate::util::excerpt(inv.argv("{ROOT}").join(" ").as_bytes(), 300)));
+                        break;
+                    }
                 }
                 // Recoverable trouble (a refused lock, a refused thread): the tool may do without or
                 // give up with an error - but exit status 0 means "done as if nothing had happened", so
